@@ -10,6 +10,7 @@ from __future__ import annotations
 
 import asyncio
 import collections
+import dataclasses
 import enum
 import hashlib
 import inspect
@@ -70,6 +71,11 @@ class Canon:
             owner = getattr(o, "__self__", None)
             tag = getattr(o, "_pv_tag", None) or getattr(getattr(o, "__func__", None), "_pv_tag", None)
             return ("fn", getattr(o, "__qualname__", "?"), type(owner).__name__ if owner is not None else None, tag)
+        if dataclasses.is_dataclass(o) and type(o).__module__.startswith("pyairtouch."):
+            # plain protocol data (messages, headers, status records): the dataclass repr is complete
+            if hasattr(o, "expiry"):
+                return ("Q", repr(o.header), repr(o.message), o.retries_remaining, self.rel(o.expiry))
+            return ("D", repr(o))
         r = self._ref(o)
         if r:
             return r
